@@ -511,3 +511,5 @@ func SortedKeys(m map[string]int) []string {
 	sort.Strings(ks)
 	return ks
 }
+
+func listenLoopback() (net.Listener, error) { return net.Listen("tcp", "127.0.0.1:0") }
